@@ -65,6 +65,8 @@ func propC13(w *World, r *Report) {
 		r.Floor("closurestate", 2)
 		RunFDSelectFill(w, r)
 		RunPredefEncoding(w, r)
+		RunDefaultFlag(w, r)
+		RunOmitTolerance(w, r)
 		RunStructCover(w, r, "cff", "Outlines", []string{"cff.Read"}, []string{"(*cff.Font).Write"})
 		RunStructCover(w, r, "cff", "Font", []string{"cff.Read"}, []string{"(*cff.Font).Write"})
 	}
